@@ -435,3 +435,19 @@ func feasiblePathAvoiding(start ssa.Instruction, isGoal, isBlock func(ssa.Instru
 	}
 	return nil
 }
+
+// ImpliesEdge: the facts holding when control flows along the edge from->to imply pred.
+func (pc *PathConds) ImpliesEdge(from, to *ssa.BasicBlock, pred func(lits []Lit) bool) (holds bool, feasible bool) {
+	any := false
+	for _, c := range pc.in[from] {
+		n, ok := pc.transfer(c, from, to)
+		if !ok {
+			continue
+		}
+		any = true
+		if !pred(pc.decode(n)) {
+			return false, true
+		}
+	}
+	return true, any
+}
